@@ -7,7 +7,7 @@ for f in sorted(glob.glob('/verif/selftest/mutants/*_prefix.json')):
     m=json.load(open(f))
     msg=subprocess.check_output(['git','-C','/repo','log','-1','--format=%s',m['fix_commit']]).decode().strip()
     for p in m['properties'].split(','):
-        fixed.append("fixed: property=%s %s %s [%s; witness /verif/replay/%s*_test.go; canary /verif/selftest/mutants/%s_prefix.patch]"%(p,m['fix_commit'],msg[len('fix: '):],m['id'],m['id'].rstrip('ab'),m['id']))
+        fixed.append("fixed: property=%s %s %s [%s; witness /verif/replay/%s*_test.go; canary /verif/selftest/mutants/%s_prefix.patch]"%(p,m['fix_commit'],msg[len('fix: '):],m['id'],('F23' if m['id']=='F29' else m['id'].rstrip('ab')),m['id']))
 k['fixed']=fixed
 json.dump(k,open('/verif/known_findings.json','w'),indent=1)
 print(len(fixed),'fixed entries')
